@@ -186,7 +186,7 @@ return 0;
 
 def fp_cases(rng, n):
     """Floating constant expressions: static initializer vs run time on volatile operands (bit-exact)."""
-    lits = ['0.1', '0.2', '0.3', '1.0', '3.0', '1e16', '2.9999', '1e-5', '16777216.0f', '1.0f', '0.1f', '3.0f', '1.5L', '0.1L',
+    lits = ['0.1', '0.2', '0.3', '1.0', '3.0', '1e16', '2.9999', '1e-5', '16777216.0f', '1.0f', '0.1f', '3.0f', '1.5L', '0.1L', '1152921573326323713L', '0x1.000001000000001p0L', '16777217L', '0x1.00000000000008000001p0L',
             '3.0L', '1e308', '1e-308', '4.9e-324', '0x1p-1074', '123456789.125', '7', '-3', '2u', '9007199254740993L', '18446744073709551615UL']
     cases = []
     frac = ['0.5', '0.25f', '-0.5', '0.75L', '0.0', '-0.0', '(0.0/0.0)', '1e-30', '0.9999', '1.5', '-1.5f', '2.5L', '1e300', '0.1', '(1.0/0.0)']
